@@ -374,7 +374,7 @@ func independent(seed uint64, id int, rounds int, bad *[]string, mu *sync.Mutex,
 
 func raceMain() {
 	e := common.New(1818)
-	rounds := e.Pick(12, 300)
+	rounds := e.Pick(8, 300)
 	workers := 8
 	nops := e.Pick(60, 120)
 	var totalOps atomic.Int64
@@ -430,6 +430,6 @@ func raceMain() {
 	}
 	pool := poolPhase(e, e.Pick(2, 3)) // sync.Pool drops items at random in a race build: the plain build is the deterministic one
 	e.Finish("random mixes of Reader.Get / DecodeStream / Decode / DecodeExclusive / StoreOrLoadPair from 8 goroutines on one Extractor, plus independent Writers/Readers, cmap.Predefined and mapping.Get*Mapping in 3 more goroutines, under the Go scheduler in a -race build (a TEST: sampled schedules)",
-		map[string]any{"race_rounds": rounds, "race_operations": totalOps.Load(), "race_functional_failures": nfail, "pool_in_race_build": pool, "errors_in_race_build": errPhase(e)})
+		map[string]any{"race_rounds": rounds, "race_operations": totalOps.Load(), "race_functional_failures": nfail, "pool_in_race_build": pool, "errors_in_race_build": errPhase(e), "concurrent_reads_in_race_build": cryptPhase(e, e.Pick(8, 100))})
 	fmt.Printf("race mode: %d rounds, %d operations, %d functional failures\n", rounds, totalOps.Load(), nfail)
 }
